@@ -270,6 +270,15 @@ class Interp:
     def truth(self, v):
         if isinstance(v, Residual):
             return self.choose(v.text, [False, True])
+        if isinstance(v, Obj) and self.types.get(v.name) and self.idx is not None and self.idx.has_cls(self.types[v.name]):
+            # an abstract object of a known class: truthiness goes through the class's own __bool__ / __len__ when it defines one
+            cls = self.types[v.name]
+            for m in ("__bool__", "__len__"):
+                if self.idx.has_method(cls, m):
+                    r = self.call_function(self.idx.method(cls, m), {"__pos__": []}, v.name)
+                    if isinstance(r, Residual):
+                        return self.choose(r.text, [False, True])
+                    return bool(r)
         return bool(v)
 
     # ------------------------------------------------------------ functions
